@@ -6,7 +6,6 @@ use super::conv::{compare, Disc};
 use super::gen::*;
 use super::*;
 use crate::engine::{Ev, RecvRes};
-use crate::httpmodel::Framing;
 
 pub struct C09c;
 pub static C09: C09c = C09c;
@@ -50,7 +49,8 @@ fn body_request(g: &mut Rng, id: &str, len: usize, chunked: bool) -> (Req, Vec<u
 }
 
 fn consume_plan(g: &mut Rng, len: usize) -> BodyPlan {
-    match g.below(9) {
+    match g.below(10) {
+        9 => BodyPlan::Sizes(vec![0]),
         0 | 1 => BodyPlan::None,
         2 => BodyPlan::Touch(1),
         3 => BodyPlan::Exactly(1),
@@ -103,12 +103,39 @@ impl Campaign for C09c {
                 sc.programs.insert(id, Program { delay: 0, after: vec![], body: consume_plan(&mut g, len), delay2: 0, finish });
                 kind = format!("{} len={}", if chunked { "chunked" } else { "content-length" }, len);
             } else {
-                msgs.push(Req::get(&id).bytes());
+                let mut rq = Req::get(&id);
+                if g.chance(1, 5) {
+                    rq = rq.with_body(token_body("m", *g.pick(&[1usize, 1024, 1025])));
+                }
+                msgs.push(spice(&mut g, rq, true, true).bytes());
                 sc.programs.insert(id.clone(), Program::respond(200, token_body(&id, 10)));
             }
         }
         let seg = seg_of(&mut g);
         let mut c = ConnScript { steps: segment(&msgs, seg, *g.pick(&[0u64, 0, MS]), &mut g), ..Default::default() };
+        // the client may hold the body back until the server has said something (an interim or the
+        // final response): legal whenever the server does not need the body first, i.e. the body is
+        // streamed and the handler either does not read it or the request expects 100-continue
+        let body_msg = &msgs[before];
+        let body_id = format!("c0r{}", before);
+        let reqm = crate::httpmodel::parse_requests(body_msg);
+        let streams = reqm.first().map(|m| m.streams_body()).unwrap_or(false);
+        let expects = reqm.first().map(|m| m.expects_continue).unwrap_or(false);
+        let reads = sc.programs.get(&body_id).map(|p| !matches!(p.body, BodyPlan::None)).unwrap_or(false);
+        if streams && (!reads || expects) && g.chance(1, 3) {
+            let head_len = reqm[0].head_end;
+            let before_bytes: Vec<u8> = msgs[..before].concat();
+            let mut steps = vec![];
+            let mut first = before_bytes;
+            first.extend_from_slice(&body_msg[..head_len]);
+            steps.push(ClientStep::Send(B(first)));
+            steps.push(ClientStep::AwaitAfterFinals(before));
+            let mut rest = body_msg[head_len..].to_vec();
+            rest.extend_from_slice(&msgs[before + 1..].concat());
+            steps.push(ClientStep::Send(B(rest)));
+            c.steps = steps;
+            kind.push_str(" withheld");
+        }
         c.coalesce = g.chance(1, 2);
         sc.conns.push(c);
         sc.receivers = loop_receivers(1, if g.chance(1, 2) { Dispatch::Spawn } else { Dispatch::Inline });
@@ -120,9 +147,22 @@ impl Campaign for C09c {
         let (e, discs) = compare(sc, out, 0);
         let main = snap(out, "main").unwrap();
         let kind = if sc.note.contains("chunked") { "chunked body" } else { "content-length body" };
-        let body_id = e.msgs.iter().find(|m| m.framing != Framing::None).and_then(|m| m.id.clone()).unwrap_or_default();
+        // the body-bearing request under test is the one at the position recorded in the note
+        let at: usize = sc.note.rsplit(" at ").next().and_then(|s| s.trim().parse().ok()).unwrap_or(0);
+        let body_id = format!("c0r{}", at);
         let plan = sc.programs.get(&body_id).map(|p| format!("{:?}", p.body)).unwrap_or_default();
         let read_all = out.obs.events.iter().any(|ev| matches!(ev, Ev::BodyRead { id, eof: true, .. } if *id == body_id));
+        let fin_kind = match sc.programs.get(&body_id).map(|p| &p.finish) {
+            Some(Finish::Writer { .. }) => "raw writer",
+            Some(Finish::Drop) => "drop",
+            _ => "respond",
+        };
+        let kind_owned = if sc.note.contains("withheld") {
+            format!("{}, held back by the client until the server has answered, request finished by {}", kind, fin_kind)
+        } else {
+            kind.to_string()
+        };
+        let kind = kind_owned.as_str();
         for d in discs {
             let text = match &d {
                 Disc::Phantom(id) | Disc::Forbidden(id) => format!("something that is not one of the client's requests was delivered ({}): unread body bytes were interpreted as a request", id),
@@ -191,6 +231,7 @@ impl Campaign for C11c {
         knobs(rng, &mut sc);
         let mut g = rng.sub("scenario");
         let sub_b = index % 2 == 1;
+        let sub_c = index % 6 == 4;
         let n = g.usize(2, 8);
         let mut msgs = vec![];
         let streamed_at = if sub_b { g.usize(0, n - 2) } else { usize::MAX };
@@ -228,10 +269,17 @@ impl Campaign for C11c {
         sc.conns.push(c);
         if sub_b {
             sc.receivers = loop_receivers(1, Dispatch::Spawn);
+        } else if sub_c {
+            // one application thread per request, each blocked in recv and then holding its request
+            // for a virtual second before answering: every request must be obtained while none is answered
+            for p in sc.programs.values_mut() {
+                p.delay = SEC;
+            }
+            sc.receivers = (0..n).map(|_| Receiver { start_at: 0, calls: vec![RecvCall::Recv], dispatch: Dispatch::Inline }).collect();
         } else {
             sc.receivers = vec![Receiver { start_at: 0, calls: vec![RecvCall::Recv; n], dispatch: Dispatch::Hold(n) }];
         }
-        sc.note = format!("C11 index {} sub {} n={} {}", index, if sub_b { "B" } else { "A" }, n, kind);
+        sc.note = format!("C11 index {} sub {} n={} {}", index, if sub_b { "B" } else if sub_c { "A (one thread per request)" } else { "A" }, n, kind);
         sc
     }
     fn check(&self, sc: &Scenario, out: &RunOut) -> Verdict {
@@ -258,6 +306,22 @@ impl Campaign for C11c {
                         sc.note, got.len(), missing, reqs.iter().map(|r| r.body.len()).collect::<Vec<_>>(), describe_blocked(main)
                     ),
                 });
+            }
+            if sc.note.contains("one thread per request") && !sc.knobs.racy_time {
+                // every request is held for one virtual second: all must have been obtained before that
+                let late: Vec<&(String, u64, u64)> = got.iter().filter(|g| g.2 >= SEC).collect();
+                // only meaningful when the client had sent everything before the first answer was due
+                let t_sent = out.obs.events.iter().find_map(|e| match e {
+                    Ev::Client { what, t, .. } if what == "script_done" => Some(*t),
+                    _ => None,
+                }).unwrap_or(u64::MAX);
+                if !late.is_empty() && missing.is_empty() && t_sent < SEC {
+                    v.violations.push(Violation {
+                        clause: "C11.read_ahead".into(),
+                        signature: "a request only became available after an earlier one had been answered".into(),
+                        detail: format!("{}: each application thread holds its request for 1 s; {:?} were obtained only at t >= 1 s", sc.note, late),
+                    });
+                }
             }
             v.nontrivial = reqs.len() >= 3 || reqs.iter().any(|r| r.body.len() == 1024);
             v.tags.push("sub=A".into());
